@@ -25,6 +25,11 @@ type rqRLay struct {
 	WS2    string    `json:"ws2,omitempty"`
 	Trail  string    `json:"trail,omitempty"`
 	CRLF   bool      `json:"crlf"`
+	Cont   *rqCont   `json:"cont,omitempty"` // continued with a backslash after "==" + WS2
+}
+type rqCont struct {
+	CRLF bool   `json:"crlf"`
+	WS   string `json:"ws"`
 }
 type rqLayout struct {
 	Recs    []rqRLay  `json:"recs"`
@@ -57,7 +62,11 @@ func renderRequirements(rs []rqRec, l rqLayout) []byte {
 		for _, n := range y.Before {
 			ls = append(ls, line{n.content(), n.CRLF})
 		}
-		ls = append(ls, line{y.Lead + r.Name + y.WS1 + "==" + y.WS2 + r.Version + y.Trail, y.CRLF})
+		if y.Cont != nil {
+			ls = append(ls, line{y.Lead + r.Name + y.WS1 + "==" + y.WS2 + "\\", y.Cont.CRLF}, line{y.Cont.WS + r.Version + y.Trail, y.CRLF})
+		} else {
+			ls = append(ls, line{y.Lead + r.Name + y.WS1 + "==" + y.WS2 + r.Version + y.Trail, y.CRLF})
+		}
 	}
 	for _, n := range l.After {
 		ls = append(ls, line{n.content(), n.CRLF})
@@ -88,8 +97,12 @@ func coqRqClaim(c rqClaim) string {
 		rs = append(rs, fmt.Sprintf("{| rq_name := %s; rq_version := %s |}", coqStr(r.Name), coqStr(r.Version)))
 	}
 	for _, y := range c.Layout.Recs {
-		ys = append(ys, fmt.Sprintf("{| rl_before := %s; rl_lead := %s; rl_ws1 := %s; rl_ws2 := %s; rl_trail := %s; rl_eol := %s |}",
-			coqRqNoise(y.Before), coqStr(y.Lead), coqStr(y.WS1), coqStr(y.WS2), coqStr(y.Trail), coqEol(y.CRLF)))
+		cont := "None"
+		if y.Cont != nil {
+			cont = "(Some (" + coqEol(y.Cont.CRLF) + ", " + coqStr(y.Cont.WS) + "))"
+		}
+		ys = append(ys, fmt.Sprintf("{| rl_before := %s; rl_lead := %s; rl_ws1 := %s; rl_ws2 := %s; rl_trail := %s; rl_eol := %s; rl_cont := %s |}",
+			coqRqNoise(y.Before), coqStr(y.Lead), coqStr(y.WS1), coqStr(y.WS2), coqStr(y.Trail), coqEol(y.CRLF), cont))
 	}
 	lay := fmt.Sprintf("{| ry_recs := %s; ry_after := %s; ry_final_nl := %s |}", coqList(ys), coqRqNoise(c.Layout.After), coqBool(c.Layout.FinalNL))
 	return "(Some (" + coqList(rs) + ", " + lay + "))"
@@ -149,6 +162,12 @@ func genRequirements(r *rand.Rand, i, n int) *Case {
 		if r.Intn(8) == 0 {
 			y.Trail = pick(r, " ", "  ", "\t")
 		}
+		if r.Intn(6) == 0 { // name== \<eol>    version
+			y.Cont = &rqCont{CRLF: eolGen(r, style), WS: pick(r, "    ", "", " ", "\t")}
+			if y.WS2 == "" && r.Intn(2) == 0 {
+				y.WS2 = " "
+			}
+		}
 		cl.Layout.Recs = append(cl.Layout.Recs, y)
 	}
 	if nrec > 0 && r.Intn(2) == 0 {
@@ -200,6 +219,35 @@ func genRequirements(r *rand.Rand, i, n int) *Case {
 		data = []byte(s)
 		claim = "None"
 		cl.Layout = rqLayout{}
+	case i%7 == 3: // a line continuation as the last thing in the file (pip accepts it): correspondence + termination
+		stream = "continuation-at-eof"
+		base := strings.TrimRight(string(renderRequirements(cl.Records, rqLayout{Recs: cl.Layout.Recs, FinalNL: true})), "\r\n")
+		nl := pick(r, "\n", "\n", "\r\n")
+		switch r.Intn(7) {
+		case 0:
+			base += " \\" // text, backslash, end of file
+		case 1:
+			base += " \\" + nl // text, backslash, final newline
+		case 2:
+			base += "\\" // backslash glued to the version
+		case 3:
+			if base != "" {
+				base += nl
+			}
+			base += "\\" // a line that is only a backslash, unterminated
+		case 4:
+			if base != "" {
+				base += nl
+			}
+			base += "\\" + nl
+		case 5:
+			base += " \\" + nl + strings.Repeat("x", 70000) + nl // continuation into a line longer than the scanner buffer
+		default:
+			base += " \\" + nl + "    --hash=sha256:" + hexStr(r, 8) + " \\" // several continuations, the last one at end of file
+		}
+		data = []byte(base)
+		claim = "None"
+		cl.Layout = rqLayout{}
 	case i%41 == 13 && nrec > 0:
 		k := r.Intn(nrec)
 		ln := []int{65533, 65534, 65535, 65536}[r.Intn(4)]
@@ -215,7 +263,7 @@ func genRequirements(r *rand.Rand, i, n int) *Case {
 	} else if style == 2 {
 		tags = append(tags, "mixed-eol")
 	}
-	if !cl.Layout.FinalNL && stream != "rich-grammar" {
+	if !cl.Layout.FinalNL && stream != "rich-grammar" && stream != "continuation-at-eof" {
 		tags = append(tags, "no-final-newline")
 	}
 	if nrec == 1 {
@@ -225,7 +273,7 @@ func genRequirements(r *rand.Rand, i, n int) *Case {
 		tags = append(tags, "no-records")
 	}
 	c := &Case{Stream: stream, Tags: tags, NRecords: nrec, Claim: cl, data: data, coqClaim: claim}
-	if stream != "rich-grammar" {
+	if stream != "rich-grammar" && stream != "continuation-at-eof" {
 		for _, rec := range cl.Records {
 			c.Expected = append(c.Expected, Pkg{rec.Name, rec.Version})
 		}
